@@ -281,6 +281,17 @@ def shard(mon, tier, rng, shard_no, nshards):
         theta_geometry(mon, rng, th)
     componentwise_geometry(mon, rng)
     cone3d_geometry(mon, rng)
+    # one large batched call (thousands of rows, not a round number)
+    label, order = gen.random_order(rng, int(rng.choice([2, 3])))
+    Wb = order.ordering_cone.W
+    Xb = rng.normal(size=(int(rng.integers(4500, 9000)), Wb.shape[1]))
+    insb = np.asarray(order.ordering_cone.is_inside(Xb))
+    expb = (Xb @ Wb.T >= 0).all(axis=1)
+    nearb = (np.abs(Xb @ Wb.T) < 1e-12).any(axis=1)
+    mon.count("large_batch_rows", len(Xb))
+    if insb.shape != (len(Xb),) or ((insb != expb) & ~nearb).any():
+        mon.violation("is_inside:large-batch", f"{label}: batched is_inside over {len(Xb)} rows differs from the per-row facet test in "
+                      f"{int(((insb != expb) & ~nearb).sum()) if insb.shape == (len(Xb),) else 'all'} rows", {"W": Wb, "n": len(Xb)})
     Ks = [3, 4, 5, 6, 8, 12, 24]
     for j in range(2 if tier == "quick" else 12):
         icecream_geometry(mon, rng, float(np.round(rng.uniform(5, 85), 2)), int(Ks[(shard_no + j) % len(Ks)]))
